@@ -4461,12 +4461,16 @@ EmitModVSib:
       if (ASMJIT_UNLIKELY(mod == 0xFF))
         goto InvalidAddress;
 
+      // EVEX encoded instructions use compressed displacement (disp8 * N) also in 16-bit address mode.
+      uint32_t cd_shift = (opcode & Opcode::kCDSHL_Mask) >> Opcode::kCDSHL_Shift;
+      int32_t cd_offset = rel_offset >> cd_shift;
+
       if (rel_offset == 0 && mod != 0x06) {
         writer.emit8(mod + (op_reg << 3));
       }
-      else if (Support::is_int_n<8>(rel_offset)) {
+      else if (Support::is_int_n<8>(cd_offset) && rel_offset == int32_t(uint32_t(cd_offset) << cd_shift)) {
         writer.emit8(mod + (op_reg << 3) + 0x40);
-        writer.emit8(uint32_t(rel_offset));
+        writer.emit8(uint32_t(cd_offset) & 0xFFu);
       }
       else {
         writer.emit8(mod + (op_reg << 3) + 0x80);
